@@ -8,6 +8,15 @@ through its getters into the model's store, `Adaptor.after` builds
 
 Values: None -> none, numeric attributes -> the integer, lists of integers -> (l ...), everything else ->
 an integer token (equal tokens <=> values equal under Python's ==); objects -> tokens by identity.
+
+For the operations that M-Follow knows (lean/DefconModel/Follow.lean: a glyph of a layer created, replaced, deleted,
+renamed, its outline edited; a component attached, removed, pointed elsewhere) `follow_before` / `follow_after` add
+
+  * the model line  `(follow <op> <name -> glyph object> <glyph object -> outline token> <components>)`
+  * the implementation's answer `((set <components that posted Component.BaseGlyphDataChanged>) (set <components>))`
+
+where a component is `(<object> <base name> <watch>)` and `<watch>` - what the component observes - is read through
+the PUBLIC `hasObserver` of the layer and of the glyphs filed in it.
 """
 import hashlib
 
@@ -466,3 +475,131 @@ class Adaptor(object):
         if name == "LayerSet.LayerOrderChanged":
             return self.names_list
         return tok
+
+
+# ---------------------------------------------------------------------------------------------------
+# M-Follow: components and the glyph filed under their base name
+# ---------------------------------------------------------------------------------------------------
+
+FOLLOW_POSTED = "Component.BaseGlyphDataChanged"
+
+
+def _outline(glyph):
+    return (tuple(tuple((p.x, p.y, p.segmentType, bool(p.smooth)) for p in c) for c in glyph._contours),
+            tuple((k.baseGlyph, tuple(k.transformation)) for k in glyph.components))
+
+
+def _follow_layer(self, op):
+    k = op[1][0] if len(op) > 1 and isinstance(op[1], list) else None
+    if k == "layer":
+        return self.w.layer_at(op[1][1])
+    if k in ("glyph", "contour", "component"):
+        return self.w.layer_at(op[1][1])
+    return None
+
+
+def _follow_state(self, layer):
+    """the layer as M-Follow sees it; None when part of it is not loaded (reading it would load it)"""
+    if set(layer.keys()) != set(layer._glyphs.keys()):           # peek: glyphs that were never loaded
+        return None
+    filed, data, comps, objs = [], [], [], {}
+    glyphs = sorted(layer._glyphs.items())
+    for name, g in glyphs:
+        if g._shallowLoadedContours is not None:                  # peek: contours not loaded yet
+            return None
+        filed.append([name, self.obj(g)])
+        data.append([self.obj(g), self.tok(_outline(g))])
+    for name, g in glyphs:
+        for c in g.components:
+            if c.baseGlyph is None:
+                continue
+            waits = layer.hasObserver(c, "Layer.GlyphDeleted")
+            follows = layer.hasObserver(c, "Layer.GlyphWillBeDeleted")
+            watched = [x for _, x in glyphs if x.hasObserver(c, "Glyph.NameChanged")]
+            if waits and not follows and not watched:
+                watch = Atom("layer")
+            elif follows and not waits and len(watched) <= 1:
+                watch = [Atom("g"), self.obj(watched[0]) if watched else 0]
+            else:
+                watch = Atom("mixed")       # not a state of the model: the driver answers bad-op
+            comps.append([self.obj(c), c.baseGlyph, watch])
+            objs[self.obj(c)] = c
+    return dict(filed=filed, data=data, comps=comps, objs=objs)
+
+
+def follow_before(self, op, details):
+    if self.w.user_holds or op[0] in ("hold", "release", "save", "touch"):
+        return None
+    try:
+        layer = _follow_layer(self, op)
+        if layer is None:
+            return None
+        st = _follow_state(self, layer)
+        if st is None:
+            return None
+        st["layer"] = layer
+        tgt = details.get("target")
+        if op[0] == "set" and op[1][0] == "glyph" and op[2] == "name":
+            st["old"] = tgt.name
+        if op[0] == "set" and op[1][0] == "component" and op[2] == "baseGlyph":
+            st["oldbase"] = tgt.baseGlyph
+        return st
+    except Exception:
+        return None
+
+
+def follow_after(self, op, st, status, details, events):
+    """(model line, implementation output) or None when M-Follow has nothing to say about the operation"""
+    if st is None or status != "ok":
+        return None
+    try:
+        layer = st["layer"]
+        post = _follow_state(self, layer)
+        if post is None:
+            return None
+        k, tk = op[0], op[1][0]
+        before = {c[0]: c[1] for c in st["comps"]}
+        after = {c[0]: c[1] for c in post["comps"]}
+        line = None
+        if k == "set" and tk == "glyph" and op[2] == "name":
+            if after == before:
+                line = [Atom("rename"), st["old"], details["value"]]
+        elif k == "call" and tk == "layer" and op[2] in ("newGlyph", "insertGlyph"):
+            g = layer._glyphs.get(details["name"])
+            if after == before and g is not None:
+                line = [Atom("new"), details["name"], self.obj(g), self.tok(_outline(g))]
+        elif k == "delitem" and tk == "layer":
+            if after == before:
+                line = [Atom("del"), details["key"]]
+        elif k == "call" and tk == "glyph" and details.get("method") == "insertComponent":
+            c = self.obj(details["obj"])
+            if c in after and c not in before and {x: b for x, b in after.items() if x != c} == before:
+                line = [Atom("addComp"), c, after[c]]
+        elif k == "call" and tk == "glyph" and details.get("method") == "removeComponent":
+            c = self.obj(details["obj"])
+            if c in before and c not in after and {x: b for x, b in before.items() if x != c} == after:
+                line = [Atom("removeComp"), c]
+        elif k == "set" and tk == "component" and op[2] == "baseGlyph":
+            c = self.obj(details["target"])
+            if c in before and c in after and set(before) == set(after) and \
+                    all(after[x] == before[x] for x in after if x != c):
+                line = [Atom("setBase"), c, after[c]]
+        if line is None and after == before and post["filed"] == st["filed"]:
+            # anything else: an edit of ONE glyph's outline
+            changed = [(o, d) for (o, d), (o0, d0) in zip(post["data"], st["data"]) if d != d0]
+            if len(changed) == 1:
+                line = [Atom("edit"), changed[0][0], changed[0][1]]
+        if line is None:
+            return None
+        mine = set(before) | set(after)
+        posted = sorted({self.obj(e.sender) for e in events if e.name == FOLLOW_POSTED and not e.error
+                         and id(e.sender) in self.objs and self.objs[id(e.sender)] in mine})
+        mline = [Atom("follow"), line, st["filed"], st["data"], st["comps"]]
+        out = [[Atom("set")] + posted, [Atom("set")] + post["comps"]]
+        return mline, out
+    except Exception:
+        return None
+
+
+Adaptor.follow_before = follow_before
+Adaptor.follow_after = follow_after
